@@ -112,6 +112,11 @@ def o3(W, ob):
         oka = bool(g) and all(any(a[0] == 'bool' and a[1].endswith('.disconnected') and 'local_connect_status' in a[1] and a[2] is False for a in c) or
                               any(a[0] == 'lin' and any('queue_min_confirmed' in k for k, _ in a[1]) and any('local_connect_status' in k and k.endswith('.last_frame') for k, _ in a[1]) for a in c)
                               for c in g)
+        # condition => guard: both alternatives must be able to trigger the adoption
+        alt_connected = any(any(a[0] == 'bool' and a[1].endswith('.disconnected') and 'local_connect_status' in a[1] and a[2] is False for a in c) for c in g)
+        alt_later = any(any(a[0] == 'lin' and any('queue_min_confirmed' in k for k, _ in a[1]) and any('local_connect_status' in k and k.endswith('.last_frame') for k, _ in a[1]) for a in c) and
+                        not any(a[0] == 'bool' and a[1].endswith('.disconnected') and 'local_connect_status' in a[1] and a[2] is False for a in c) for c in g)
+        oka = oka and alt_connected and alt_later
         ob.check(okq and oka, 'update_player_disconnects|adoption-condition',
                  'a player some peer reports as disconnected is disconnected locally if still connected here or cut off later here',
                  'adoption guard: ' + dnf_str(g)[:300], where(u, t.line))
